@@ -10,7 +10,9 @@ PROPERTIES = ['C03', 'C01', 'C02']
 PROPERTY = 'C03'
 BOUND = ("quick: 300 random histories of 1-60 fills; thorough: 10,000 histories of 1-200 fills, 1-3 assets, integer quantities of either "
          "sign (including closes to exactly zero, flips through zero and re-opens), prices in [0.5, 500] with 0-4 decimals, commissions 0 or "
-         "a percentage, interleaved price marks; relative tolerance 1e-9 scaled by the gross traded value.")
+         "a percentage, interleaved price marks, round trips back to the quantity held two fills earlier; figures read after every step on "
+         "half of the histories, after about a third of the steps and at the end on the other half; relative tolerance 1e-9 scaled by the "
+         "gross traded value.")
 
 
 def _ledger_check(acc, seed, nmax, failures, samples):
@@ -26,6 +28,8 @@ def _ledger_check(acc, seed, nmax, failures, samples):
     n = rng.randint(1, nmax)
     steps = []
     gross = 1.0
+    orng = random.Random('observe:%s' % seed)
+    sparse = orng.random() < 0.5
     mirror = len(assets) >= 2 and rng.random() < 0.3       # two assets with EQUAL quantities, prices and market values for a while
     for i in range(n):
         t = t + pd.Timedelta(minutes=rng.choice([0, 1, 30, 390]))
@@ -51,8 +55,11 @@ def _ledger_check(acc, seed, nmax, failures, samples):
                 q = -L['q']                              # close to exactly zero
             elif mode < 0.30 and L['q'] != 0:
                 q = -L['q'] - int(math.copysign(rng.randint(1, 200), L['q']))   # flip through zero
+            elif mode < 0.45 and L.get('prevq') and L['q'] != 0 and L['q'] - L['prevq'] != 0:
+                q = -L['prevq']                          # a round trip: back to the net quantity held two fills ago, at another price
             else:
                 q = rng.choice([-1, 1]) * rng.randint(1, 500)
+            L['prevq'] = q
             p = round(rng.uniform(0.5, 500), rng.choice([0, 2, 4]))
             k = rng.choice([0.0, round(abs(p * q) * rng.choice([0.001, 0.0025]), rng.choice([2, 6]))])
             was_flat = L['q'] == 0
@@ -69,7 +76,10 @@ def _ledger_check(acc, seed, nmax, failures, samples):
             cash -= p * q + k
             gross += abs(p * q)
             steps.append(('fill', a, q, p, k))
-        # observe after every step (a stale cached figure must show)
+        # observe after every step (a stale cached figure must show) - or, on every other history, only now and then and at the end
+        # (a figure remembered at one reading must not survive the fills made before the next one)
+        if sparse and i < n - 1 and orng.random() < 0.65:
+            continue
         tol = 1e-9 * gross
         held = pf.pos_handler.positions
 
